@@ -50,8 +50,12 @@ NameCands(kind) == {"n", "n1", "node-1", "node.1", "node_1", "node 1", "node+1",
                     Rep("n", 255), Rep("n", 256), Rep("n", 254) \o "\n", ""}
 NameOps == UNION {{[op |-> e, kind |-> k, name |-> c] : e \in {"SetName", "ElemCreate", "ElemSetName", "ElemRename"}, c \in NameCands(k)} : k \in DOMAIN NameChars}
 BootOps == {[op |-> e, len |-> n] : e \in {"SetBoot", "ElemSetBoot"}, n \in {0, 1, 100, 1022, 1023, 1024, 1025, 5000}}
+BlobLens(c) == {2, 20, BlobMax[c] - 1, BlobMax[c], BlobMax[c] + 1, BlobMax[c] + 100}
 BlobOps == UNION {{[op |-> e, cls |-> c, len |-> n, valid |-> v] : e \in {"BlobText", "BlobObject", "ElemSetBlob"},
-                      n \in {2, 20, BlobMax[c] - 1, BlobMax[c], BlobMax[c] + 1, BlobMax[c] + 100}, v \in {TRUE, FALSE}} : c \in DOMAIN BlobMax}
+                      n \in BlobLens(c), v \in {TRUE, FALSE}} : c \in DOMAIN BlobMax}
+           \* text of the given length written another way (no blanks / characters an encoder escapes): stored as given
+           \cup UNION {{[op |-> e, cls |-> c, len |-> n, valid |-> TRUE, style |-> y] : e \in {"BlobText", "ElemSetBlob"},
+                      n \in BlobLens(c) \cup {(2 * BlobMax[c]) \div 3, BlobMax[c] \div 2}, y \in {"compact", "nonascii", "canon"}} : c \in DOMAIN BlobMax}
 OtherOps == TagOps \cup NameOps \cup BootOps \cup BlobOps \cup {[op |-> "LRecode"]}
 \* the alphabet is explored in independent parts (one per label field + the rest) so that the workers share it
 OpsOf(p) == IF p = "other" THEN OtherOps ELSE FieldOps(p)
